@@ -2142,13 +2142,20 @@ def preprocess_file(
                 out_line += line[i0:]
             return out_line
 
-        def replace_vars(line: str):
+        def replace_vars(line: str, hidden: tuple = ()):
             i0 = 0
             out_line = ""
             for match in FRegex.WORD.finditer(line):
+                word = match.group(0)
                 # The bare name of a function-like macro is not an invocation
-                if isinstance(defs.get(match.group(0)), str):
-                    out_line += line[i0 : match.start(0)] + defs[match.group(0)]
+                if isinstance(defs.get(word), str) and word not in hidden:
+                    # The body is scanned again for macro names (`#define A B`),
+                    # a macro is not expanded inside its own expansion
+                    value = replace_vars(defs[word], (*hidden, word))
+                    out_line += line[i0 : match.start(0)] + value
+                elif hidden and word in ("True", "False"):
+                    # The value given to macros that are defined without a body
+                    out_line += line[i0 : match.end(0)]
                 else:
                     out_line += line[i0 : match.start(0)] + "False"
                 i0 = match.end(0)
